@@ -174,7 +174,18 @@ Definition writer_sites : list (string * okind) :=
     ("internal/token.generateRefreshTokenGrant", KGrant);
     ("internal/token.updatePoPForRefreshedToken", KGrant);
     ("internal/authorize.authorizeAuthnSession", KSession);
-    ("internal/authorize.initAuthnSession", KSession);
+    (* (internal/authorize.initAuthnSession is NOT a writer of shared memory: the first request of an authorization
+       works on a new session or on a copy of the pushed one - Model/AccessOwn.v, Props/C20.v pushed_session_*.)
+       Writers below internal/authorize.initAuth are named "<site>[initAuth]" by the dynamic check; the copy of the
+       pushed session is SHALLOW, its map-valued members stay shared with the stored session and with the copies
+       of other requests presenting the same request_uri: *)
+    ("pkg/goidc.(*AuthnSession).StoreParameter[initAuth]", KSession);
+    ("pkg/goidc.(*AuthnSession).SetIDTokenClaim[initAuth]", KSession);
+    (* the bytes of the authorization code: strutil.Random fills the buffer whose string authorizeAuthnSession
+       then publishes with its unsynchronised assignment session.AuthCode = ... on the STORED session (callback
+       path); a second callback finishing the same session reads them (redirect parameters, c_hash): the
+       detector names the filling, as for the decoder of dcr below *)
+    ("internal/strutil.Random", KSession);
     ("pkg/goidc.(*AuthnSession).SetUserID", KSession);
     ("pkg/goidc.(*AuthnSession).GrantScopes", KSession);
     ("pkg/goidc.(*AuthnSession).StoreParameter", KSession);
@@ -191,7 +202,9 @@ Definition writer_sites : list (string * okind) :=
 Definition reader_prefixes (k : okind) : list string :=
   match k with
   | KGrant => ["internal/storage.(*GrantSessionManager)."; "internal/token."; "internal/userinfo."; "pkg/goidc.(*GrantSession)."; "pkg/goidc.(*GrantInfo)."]
-  | KSession => ["internal/storage.(*AuthnSessionManager)."; "internal/authorize."; "internal/token."; "pkg/goidc.(*AuthnSession)."]
+  | KSession => ["internal/storage.(*AuthnSessionManager)."; "internal/authorize."; "internal/token."; "pkg/goidc.(*AuthnSession).";
+                 (* Context.SaveAuthnSession counts the index fields of the session it is about to save *)
+                 "internal/oidc."]
   | KClient => ["internal/storage.(*ClientManager).Client"; "pkg/goidc.(*Client)."; "internal/clientutil.";
                 (* every handler package holds the loaded client of its request *)
                 "internal/authorize."; "internal/token."; "internal/userinfo."; "internal/dcr."; "internal/oidc."]
